@@ -42,6 +42,11 @@ SHAPES_QUICK = [("tree", 2, 6), ("tree", 4, 4), ("tree", 3, 5), ("tree", 2, 11),
 SHAPES_THOROUGH = SHAPES_QUICK + [("tree", 2, 12), ("tree", 8, 4), ("tree", 5, 5), ("chain", 1, 1500), ("treechain", 4, 5), ("treechain", 2, 9)]
 
 
+def _shrunk(prog, how, pol, cs, oracle):
+    small, runs = tl.shrink_for(prog, how, pol, cs, MONITORS, oracle)
+    return {"shrunk_program": small, "shrink_runs": runs}
+
+
 def plan(tier, seed, build, scale):
     n = int((2000 if tier == "quick" else 28000) * scale)
     per = max(1, n // (10 if tier == "quick" else 40))
@@ -119,7 +124,7 @@ def run_unit(unit, progress):
                         {
                             "oracle": v["oracle"],
                             "mechanism": v["oracle"],
-                            "detail": {"how": how, "prio": pol, "violation": v["detail"], "program": prog},
+                            "detail": dict({"how": how, "prio": pol, "violation": v["detail"], "program": prog}, **_shrunk(prog, how, pol, cs, v["oracle"])),
                             "case": {"cases": [i, i + 1]},
                         }
                     )
